@@ -493,6 +493,61 @@ def near_copy_beyond_a_read(W, rec, rng):
                                   f"{(got or b'')[max(0, (where or 0) - 5):(where or 0) + 12]!r} vs {content[max(0, (where or 0) - 5):(where or 0) + 12]!r}; fields {dict(form)!r}", case, monitor="roundtrip")
 
 
+def uploads_that_are_encoded_forms(W, rec, rng):
+    """History of the process: an upload whose content was itself produced by the encoder a moment ago (a recorded request
+    body attached to a bug report, a form forwarded inside a form), every encoding left to choose its own boundary.  The
+    outer request gives back the inner body byte for byte, and the fields around it."""
+    M, FP, T, Request, DS = W
+    for depth in (1, 2):
+        inner_fields = [("inner", "wert \u00e9"), ("other", "x")]
+        md = DS.MultiDict(inner_fields)
+        md.add("doc", DS.FileStorage(io.BytesIO(b"inner file " + bytes(rng.randrange(256) for _ in range(40))), filename="d.bin", name="doc", content_type="application/octet-stream"))
+        _, content = T.encode_multipart(md)
+        for _ in range(depth - 1):
+            md_mid = DS.MultiDict([("level", "mid")])
+            md_mid.add("nested", DS.FileStorage(io.BytesIO(content), filename="nested.bin", name="nested", content_type="multipart/form-data"))
+            _, content = T.encode_multipart(md_mid)
+        for route in ("encode_multipart", "builder", "client"):
+            case = {"path": "upload-is-an-encoded-form", "depth": depth, "route": route, "content_len": len(content)}
+            rec.case()
+            rec.nontrivial(("nested-form", depth, route))
+            rec.observe("uploads_that_are_encoded_forms")
+            with rec.guard(case, "C02/nested"):
+                if route == "encode_multipart":
+                    outer = DS.MultiDict([("before", "1")])
+                    outer.add("up", DS.FileStorage(io.BytesIO(content), filename="recorded.bin", name="up", content_type="application/octet-stream"))
+                    outer.add("after", "2")
+                    b2, data = T.encode_multipart(outer)
+                    form, files = FP.MultiPartParser().parse(io.BytesIO(data), b2.encode(), len(data))
+                else:
+                    data_ = {"before": "1", "up": (io.BytesIO(content), "recorded.bin"), "after": "2"}
+                    if route == "builder":
+                        b = T.EnvironBuilder(method="POST", data=data_)
+                        try:
+                            r = b.get_request(Request)
+                            form, files = r.form, r.files
+                        finally:
+                            b.close()
+                    else:
+                        seen = {}
+
+                        @Request.application
+                        def app(request):
+                            seen["form"], seen["files"] = request.form.copy(), {k: v.read() for k, v in request.files.items()}
+                            from werkzeug.wrappers import Response as _Resp
+
+                            return _Resp("ok")
+
+                        T.Client(app).post("/", data=data_)
+                        form, files = seen.get("form", {}), seen.get("files", {})
+                got = files.get("up")
+                got = got if isinstance(got, (bytes, type(None))) else got.stream.read()
+                if got != content or dict(form) != {"before": "1", "after": "2"} or list(files) != ["up"]:
+                    rec.violation("C02/upload-that-is-an-encoded-form-differs", f"{route}: an upload of {len(content)} bytes that is itself an encoded form (depth {depth}) came back as {None if got is None else len(got)} bytes; "
+                                  f"fields {dict(form)!r}, files {list(files)!r}", case, monitor="roundtrip")
+                    return
+
+
 def concurrent_shared_parser(W, rec, rng, rounds, prefix="C02"):
     """Schedule: ONE FormDataParser / MultiPartParser object serving two requests at once (a parser kept on the
     application).  The two input streams hand out a few bytes per read and rendezvous at every read, so the two
@@ -701,6 +756,7 @@ def run(shard, rec, rng):
     concurrent_shared_parser(W, rec, rng, 3)
     if shard["index"] % 4 == 0:
         near_copy_beyond_a_read(W, rec, rng)
+        uploads_that_are_encoded_forms(W, rec, rng)
     # ---- random part lists
     for i in range(cfg["random_lists"]):
         boundary = rand_boundary(rng)
